@@ -154,7 +154,8 @@ def fmtListItems (ordered : Bool) : List (Int × Str) → List (Int × Nat) → 
 def listText (ordered : Bool) (items : List (Int × Str)) : Str :=
   trim (fmtListItems ordered items [] (-1))
 
-def cellText (c : Str) : Str := c.map fun b => if b == 10 then 32 else b
+/-- `escapeMarkdownCell`: a newline becomes a blank, a pipe is escaped as `\|` -/
+def cellText (c : Str) : Str := c.flatMap fun b => if b == 10 then [32] else if b == 124 then [92, 124] else [b]
 
 /-- one row of `Table.ToMarkdown`: `| c ` per cell and a closing `|` after the last one -/
 def mdRow (cells : List Str) : Str :=
